@@ -561,7 +561,7 @@ func c05Kind(o c05Operand) string {
 }
 
 func init() {
-	fw.Register(addTok(tokFramesC05, &fw.Prop{
+	register(addTok(tokFramesC05, &fw.Prop{
 		ID: "C05",
 		Rule: "every binary operator x every ordered pair of the operand alphabet x four supply modes (literal, variables, document fields, parameters of a user function that applies the operator); every binary operator also where a condition stands (if, while, the test of a for, under ! and ||, a rule pattern); every unary operator, ++/-- in both positions, `is` x 10 type names, " +
 			"short-circuit probes with a tracing call, and every operator as ONE expression site evaluated over the whole sequence of operand pairs (forward and reversed, ending in a failing pair); tracing calls in every operand position of every operator and composite form incl. 8-key object literals (order and extent of evaluation); a number in a variable / member / array cell / document field with every derived form (string form in + and ~, rendering, JSON text, arithmetic, comparison) taken before and after each ordered pair of 10 ways to change it; every string d.dd / dd.dd as a number; a state is a table cell (form, operator, left kind, right kind, outcome); non-trivial = cells whose model result is a value; numeric results are compared as doubles",
